@@ -60,10 +60,11 @@ EXPECTED_PROBES = {
             'convert_into_source:dotdot', 'temp_wh', 'preexisting_store',
             'no_features', 'multi_probe_table', 'highest_template_unused',
             'second_export_from_same_session', 're_export_into_same_directory',
-            'params_name_a_missing_raw_file'],
+            'params_name_a_missing_raw_file', 'same_creator_object_converts_again'],
     'C14': ['pipeline', 'pipeline_k>=3', 'features', 'no_features', 'empty_cluster_id',
             'few_channels_on_probe', 'factor', 'second_export_from_same_session',
-            're_export_into_same_directory', 'batch_boundary_size'],
+            're_export_into_same_directory', 'batch_boundary_size',
+            'cluster_waveforms_recomputed_from_ground_truth'],
 }
 
 TSV_NAMES = ['cluster_Amplitude.tsv', 'cluster_ContamPct.tsv', 'cluster_KSLabel.tsv']
@@ -193,7 +194,7 @@ def gen(rng, prop, tier):
     r = rng.random()
     if r < 0.15:
         # a second export from the same loaded model into another directory
-        ops.append({'op': 'convert', 'out': 'alf2', 'label': rng.choice(['', 'probe01', 'b']),
+        ops.append({'op': 'convert', 'out': 'alf2', 'label': rng.choice(['', '', 'probe01', 'b']),
                     'ampfactor': rng.choice([1, 2.5]), 'force': False})
     elif r < 0.3:
         # export, re-curate, export again into the same directory (force=True overwrites)
@@ -752,8 +753,10 @@ def _nearest_ok(listed, peak, pos, probes_of, ncw):
     return bool(np.all(np.abs(np.sort(got_d) - exp_d) <= 1e-9 * max(1.0, float(exp_d.max())))), k
 
 
-def check_export_values(ctx, model, out, op, orig_maps):
-    """C14. `model` is the source model (its stored arrays are the inputs of the formulas)."""
+def check_export_values(ctx, model, out, op, orig_maps, src_gt=None):
+    """C14. `model` is the source model (its stored arrays are the inputs of the formulas); for
+    sources written by the dataset world the cluster waveforms are additionally recomputed from the
+    ground truth (weighted means of C08), so that a wrong cluster waveform array is not trusted."""
     label = op['label']
     f = op['ampfactor']
     if f != 1:
@@ -774,6 +777,21 @@ def check_export_values(ctx, model, out, op, orig_maps):
     Cdata = np.asarray(model.sparse_clusters.data, dtype=np.float64)
     if Cdata.shape[0] != n_clu:
         ctx.fail('cluster-waveform-array-length', {'got': int(Cdata.shape[0]), 'expected': n_clu})
+    if src_gt is not None and curated:
+        d_, g_ = src_gt
+        R = ref.DatasetRef(d_, g_, n_closest=model.n_closest_channels,
+                           threshold=model.amplitude_threshold)
+        cands, amb = ref.reference_cluster_waveforms(
+            R, sc, st, np.asarray(g_.tmpl_data, dtype=np.float64), Cdata.shape[1], nc)
+        scale_ = max(float(np.abs(np.asarray(g_.tmpl_data)).max()), 1e-300)
+        for c_ in range(n_clu):
+            if c_ in amb:
+                ctx.skipped['ambiguous-channel-list'] += 1
+                continue
+            ok_ = any(np.all(np.abs(Cdata[c_] - e_) <= 1e-6 * scale_) for e_ in cands[c_])
+            ctx.check(ok_, 'cluster-waveform-not-the-weighted-mean-of-its-templates',
+                      lambda: {'cluster': c_, 'n_candidates': len(cands[c_])})
+        ctx.probe('cluster_waveforms_recomputed_from_ground_truth')
     for kind, data, ids, n in (('templates', Tdata, st, nt), ('clusters', Cdata, sc, n_clu)):
         un = np.stack([data[i] @ wmi for i in range(n)])
         au = (un.max(axis=1) - un.min(axis=1)).max(axis=1)
@@ -922,8 +940,10 @@ def run_ops(plan, ctx, cfg):
     src_dir = None
     orig_maps = None
     out_models = {}
+    creators = {}
     n_converts = 0
     export_memo = {}
+    src_gt = None
     n_probes = 1
     probes = None
     if 'probes' in cfg:
@@ -946,6 +966,7 @@ def run_ops(plan, ctx, cfg):
                 orig_maps.append(loc.astype(np.int64))
             g.chmap = cm
         params = world.write_dataset(d, g, src_dir)
+        src_gt = (d, g)
         ex = d['extras']
         rs = np.random.RandomState((d['seed'] + 5) % (2 ** 32))
         if ex['ks_label']:
@@ -1071,7 +1092,13 @@ def run_ops(plan, ctx, cfg):
                 ctx.probe('second_export_from_same_session')
                 if out.exists():
                     ctx.probe('re_export_into_same_directory')
-            creator = ctx.real('EphysAlfCreator', EphysAlfCreator, model, owners=('C13', 'C14'))
+            if creators.get(id(model)) is not None and (step + cfg['seed']) % 2 == 0:
+                creator = creators[id(model)]     # history: the same creator object converts again
+                ctx.probe('same_creator_object_converts_again')
+            else:
+                creator = ctx.real('EphysAlfCreator', EphysAlfCreator, model,
+                                   owners=('C13', 'C14'))
+                creators[id(model)] = creator
             out_model = ctx.real('convert', creator.convert, out, force=op['force'],
                                  label=op['label'], ampfactor=op['ampfactor'],
                                  owners=('C13', 'C14'))
@@ -1093,7 +1120,8 @@ def run_ops(plan, ctx, cfg):
                 check_export_structure(ctx, model, src_dir, out, op, before, n_probes, out_model,
                                        memo=export_memo)
             elif prop == 'C14':
-                check_export_values(ctx, model, out, op, orig_maps)
+                check_export_values(ctx, model, out, op, orig_maps,
+                                    src_gt if probes is None else None)
             sc_ = np.asarray(model.spike_clusters)
             st_ = np.asarray(model.spike_templates)
             ctx.state(n_probes, probes is not None, bool(op['label']), model.traces is not None,
